@@ -147,7 +147,8 @@ RECIPES = {
     },
     "C03": {
         "level": "model_checking",
-        "mc": {"quick": [("MC_Range", "MC_Range_q")], "thorough": [("MC_Range", "MC_Range_t")]},
+        "mc": {"quick": [("MC_Range", "MC_Range_q"), ("MC_Corrupt", "MC_Corrupt_q", 12)],
+               "thorough": [("MC_Range", "MC_Range_t"), ("MC_Corrupt", "MC_Corrupt_t", 14)]},
         "families": {"quick": [("elf", 10, 4), ("elfcorrupt", 14, 3)], "thorough": [("elf", 60, 8), ("elfcorrupt", 80, 8)]},
         "reasons": ("value", "panic"),
         "tags": ["q:section_data", "q:segment_data", "q:section_data_as_strtab", "q:section_data_as_notes",
@@ -165,7 +166,8 @@ RECIPES = {
     },
     "C05": {
         "level": "model_checking",
-        "mc": {"quick": [("MC_Locate", "MC_Locate_q", 10)], "thorough": [("MC_Locate", "MC_Locate_t", 14)]},
+        "mc": {"quick": [("MC_Locate", "MC_Locate_q", 10), ("MC_Corrupt", "MC_Corrupt_q", 12)],
+               "thorough": [("MC_Locate", "MC_Locate_t", 14), ("MC_Corrupt", "MC_Corrupt_t", 14)]},
         "families": {"quick": [("locate", 40, 3), ("entsize", 25, 2), ("elf", 6, 2), ("elfcorrupt", 12, 2)],
                      "thorough": [("locate", 300, 6), ("entsize", 200, 4), ("elf", 40, 4), ("elfcorrupt", 80, 6)]},
         "reasons": ("value", "panic"),
@@ -237,7 +239,8 @@ RECIPES = {
     },
     "C20": {
         "level": "model_checking",
-        "mc": {"quick": [("MC_Paths", "MC_Paths_q", 6)], "thorough": [("MC_Paths", "MC_Paths_t", 10)]},
+        "mc": {"quick": [("MC_Paths", "MC_Paths_q", 6), ("MC_Corrupt", "MC_Corrupt_q", 12)],
+               "thorough": [("MC_Paths", "MC_Paths_t", 10), ("MC_Corrupt", "MC_Corrupt_t", 14)]},
         "families": {"quick": [("elf", 10, 4), ("elfcorrupt", 8, 2), ("stream", 5, 2)],
                      "thorough": [("elf", 80, 8), ("elfcorrupt", 60, 6), ("stream", 40, 4)]},
         "reasons": ("value", "panic"),
@@ -256,10 +259,12 @@ RECIPES = {
     },
     "C01": {
         "level": "exploration",
+        "mc": {"quick": [("MC_Corrupt", "MC_Corrupt_q", 12)], "thorough": [("MC_Corrupt", "MC_Corrupt_t", 14)]},
         "families": {"quick": SLICE_FAMILIES_Q, "thorough": SLICE_FAMILIES_T},
         "reasons": ("panic", "died"),
         "tags": None,
-        "rule": "B: every slice-parser generator family (stand-alone readers and ParseAt types at offsets up to usize::MAX, "
+        "rule": "A: the spec-derived corruption corpus (MC_Corrupt): every header field of a template object x 9 boundary values, "
+                "full query script, replayed; B: every slice-parser generator family (stand-alone readers and ParseAt types at offsets up to usize::MAX, "
                 "tables/iterators with indices near usize::MAX, string tables, idents of every length, notes with alignments "
                 "0..2^64-1, hash tables with corrupted headers, version iterators with counts up to u64::MAX, whole objects with "
                 "every header field set to boundary values, truncations, random bytes) with overflow checks and debug assertions "
@@ -269,6 +274,7 @@ RECIPES = {
     "C06": {
         "level": "model_checking",
         "custom": [features.feature_check],
+        "mc": {"quick": [("MC_Corrupt", "MC_Corrupt_q", 12)], "thorough": [("MC_Corrupt", "MC_Corrupt_t", 14)]},
         "families": {"quick": SLICE_FAMILIES_Q, "thorough": SLICE_FAMILIES_T},
         "reasons": ("alloc", "value"),
         "tags": None,
